@@ -213,8 +213,44 @@ def _scroll_bookkeeping(ctx, rep):
            len(setf) == 1 and len(rs) == 1 and setf[0].lineno < rs[0].lineno and gated, '', ctx.where(sv))
 
 
+def _dbcs_range_and_page_switch(ctx, rep):
+    """(a) After a write, the cells whose *displayed character* changed can lie on either side of the cells written (a lead
+    byte completed by a trail byte written later): the range that is redrawn and sent is extended to both sides.
+    (b) A page switch lowers the visible flag of the page that WAS visible -- it reads the old page number before storing the new."""
+    rf = ctx.fn('pcbasic/basic/display/buffers.py:VideoBuffer._refresh_dbcs')
+    rets = [r for r in own_nodes(rf) if isinstance(r, ast.Return) and r.value is not None]
+    defs = {}
+    for a in own_nodes(rf):
+        if isinstance(a, ast.Assign) and isinstance(a.targets[0], ast.Tuple) and isinstance(a.value, ast.Tuple) and len(a.targets[0].elts) == len(a.value.elts):
+            for t, v in zip(a.targets[0].elts, a.value.elts):
+                defs.setdefault(norm(t), []).append(v)
+        elif isinstance(a, ast.Assign) and isinstance(a.targets[0], ast.Name):
+            defs.setdefault(a.targets[0].id, []).append(a.value)
+
+    def widened(e, fn_name, orig):
+        if isinstance(e, ast.Call) and norm(e.func) == fn_name and orig in [norm(x) for x in e.args] and len(e.args) == 2:
+            other = [x for x in e.args if norm(x) != orig][0]
+            return not (isinstance(other, ast.Constant))
+        if isinstance(e, ast.Name):
+            return any(widened(v, fn_name, orig) for v in defs.get(e.id, []))
+        return False
+    ok = len(rets) == 1 and isinstance(rets[0].value, ast.Tuple) and len(rets[0].value.elts) == 2 \
+        and widened(rets[0].value.elts[0], 'min', 'orig_start') and widened(rets[0].value.elts[1], 'max', 'orig_stop')
+    rep.ob('dbcs.redraw-range-extends-both-ways', '_refresh_dbcs returns (min(first changed, orig_start), max(last changed, orig_stop))', ok,
+           'the range is not extended to the left: a lead byte whose trail byte is written by a later statement keeps its old glyph on the display', ctx.where(rf))
+    sp = ctx.fn('pcbasic/basic/display/display.py:Display.set_page')
+    low = [c for c in own_nodes(sp) if isinstance(c, ast.Call) and norm(c) == 'self.pages[self.vpagenum].set_visible(False)']
+    store = [a for a in own_nodes(sp) if isinstance(a, ast.Assign) and norm(a.targets[0]) == 'self.vpagenum']
+    high = [c for c in own_nodes(sp) if isinstance(c, ast.Call) and norm(c.func).endswith('.set_visible') and norm(c.args[0]) == 'True']
+    rep.ob('visible.old-page-lowered-before-switch', 'Display.set_page lowers the flag of the page that was visible, then stores the new page numbers',
+           len(low) == 1 and len(store) == 1 and (low[0].lineno, low[0].col_offset) < (store[0].lineno, store[0].col_offset)
+           and len(high) == 1 and norm(high[0].func) == 'self.pages[new_vpagenum].set_visible',
+           'the new page number is stored first: the flag of the NEW page is lowered and raised, the old visible page stays flagged visible and keeps sending updates', ctx.where(sp))
+
+
 def check(ctx, rep):
     _geometry(ctx, rep)
+    _dbcs_range_and_page_switch(ctx, rep)
     _scroll_bookkeeping(ctx, rep)
     vp = ctx.cls(VID + ':VideoPlugin')
     init = class_methods(vp)['__init__']
@@ -330,6 +366,10 @@ def variants(ctx):
         return lambda tree: f(mu.find_def(tree, f_name))
 
     return [
+        mu.Variant('dbcs-redraw-range-not-extended-left', 'break', 'pcbasic/basic/display/buffers.py',
+                   lambda tree: mu.replace_expr(mu.find_def(tree, 'VideoBuffer._refresh_dbcs'), mu.text_is('min(start, orig_start)'), 'orig_start'), expect='dbcs.redraw-range-extends-both-ways'),
+        mu.Variant('page-numbers-stored-before-old-page-hidden', 'break', 'pcbasic/basic/display/display.py',
+                   lambda tree: _store_first(mu.find_def(tree, 'Display.set_page')), expect='visible.old-page-lowered-before-switch'),
         Va('scroll-down-drops-row-above', 'break', BUF,
            lambda tree: mu.replace_stmt(mu.find_def(tree, 'VideoBuffer.scroll_down'), mu.text_is('del self._rows[to_row]'), 'del self._rows[to_row - 1]'), expect='scroll.row-list-edit'),
         Va('scroll-up-deletes-before-insert', 'break', BUF, lambda tree: _del_first(mu.find_def(tree, 'VideoBuffer.scroll_up')), expect='scroll.row-list-edit'),
@@ -380,3 +420,16 @@ def _resubmit_first(fn):
     keep = [s for s in fn.body if isinstance(s, ast.Expr) and isinstance(s.value, ast.Constant)]
     fn.body[:] = keep + new
     return True
+
+
+def _store_first(fn):
+    st = [x for x in fn.body if isinstance(x, ast.Assign) and norm(x.targets[0]) in ('self.vpagenum', 'self.apagenum')]
+    tr = [x for x in fn.body if isinstance(x, ast.Try)]
+    if len(st) != 2 or len(tr) != 1:
+        return False
+    for x in st:
+        fn.body.remove(x)
+    i = fn.body.index(tr[0])
+    fn.body[i:i] = st
+    return True
+
